@@ -58,7 +58,6 @@ SPEC = dict(
     assumptions=[
         "no rt verdict is predicted for the structurally defined class newline-inside-statement: a /* */ comment in front of a token that does not start its statement, a blank line directly behind the keyword of a return statement, a bare return used as an operand, a composition access [..] behind a call/access of the same identifier chain whose text spans lines (x := a([1,2,3,4,5])[0]), a # comment unless it sits on an identifier/number leaf and is printed directly behind that token at the end of a line",
         "no idem verdict is predicted for the class layout-not-idempotent: the class above, any /* */ comment, a blank line in front of a token that does not start its statement or in front of an infix operator, a mutex/sink statement followed by a statement without a blank line before it",
-        "no rt/idem verdict is predicted for the class keyword-operand-brackets: an operator expression as operand of a sink attribute, a let expression as operand of an operator, an infix operand of let binding at most 20",
         "all classes are computed independently by the harness (Go AST) and the driver (payload AST); Go's real outcomes inside the classes are counted in input_distribution; outside the classes rt=ok idem=ok is demanded",
     ],
     decode=decode,
@@ -75,7 +74,7 @@ META = dict(
                 "only (text identical to the model printer; Go round trip)."),
     level_note=("Trusted: Lean kernel + propext/Classical.choice/Quot.sound; the extractor; the harness' tree equality. "
                 "Known deviations with classifiers: raw-string-kind, mul-right-brackets, stmt-starts-with-sign, "
-                "newline-inside-statement, layout-not-idempotent, keyword-operand-brackets."),
+                "newline-inside-statement, layout-not-idempotent."),
 )
 
 
